@@ -5,7 +5,7 @@ suite passes, demo fails with / passes without), then applies it to /repo, runs
 the property's check, undoes it, and stores everything under /verif/seeded/."""
 import json, os, subprocess, sys, shutil, time
 ENV = dict(os.environ, GOFLAGS="-mod=mod", GOPROXY="off", GOSUMDB="off", GOTOOLCHAIN="local")
-V = "/verif"
+V = os.environ.get("VSYM_HOME") or os.path.dirname(os.path.dirname(os.path.abspath(__file__)))
 
 def sh(cmd, cwd=None, timeout=1800):
     r = subprocess.run(cmd, shell=True, cwd=cwd, env=ENV, capture_output=True, text=True, timeout=timeout)
